@@ -31,8 +31,15 @@ def mk(K: dict, op: str = ""):
     w = np.array(K["w"], dtype=float)
     lay = bind.get_layout()
     if lay == "strided" and op and op not in EXACT and op not in ("tovec", "update_weights", "update_mode") and R >= 1 and len(U) >= 2:
-        U[0] = U[0] * 2.0 ** -60
-        w = w * 2.0 ** 60
+        if len(U) >= 3 and op in ("normalize", "arrange", "fixsigns"):
+            # every factor huge, the weights tiny: all entries, all column norms and the true weights are ordinary
+            # doubles, only the PRODUCT of a component's column norms is not
+            e = 1050 // len(U)
+            U = [u * 2.0 ** e for u in U]
+            w = w * 2.0 ** (-e * len(U))
+        else:
+            U[0] = U[0] * 2.0 ** -60
+            w = w * 2.0 ** 60
     Kt = bind.ttb.ktensor(U, w)
     if lay in ("swapped", "grown"):
         for k in range(len(Kt.factor_matrices)):
